@@ -234,6 +234,11 @@ func (f *file) MakeReadable() error {
 		return pathError("open", f.path, syscall.EACCES)
 	}
 	if f.n.Morph != nil {
+		if f.n.Morph.Mode&os.ModeSymlink != 0 {
+			// the entry was replaced by a symlink after the lstat: opening with O_NOFOLLOW fails
+			simCount("fs-became-symlink")
+			return pathError("open", f.path, syscall.ELOOP)
+		}
 		simCount("fs-type-changed")
 		f.n = f.n.Morph
 	}
